@@ -314,6 +314,11 @@ def judge(spec, rec):
     gthread_base = kind == "gthread" and any(c in BASE_ONLY for c in inj)
     trace = rec["trace"]
     # (1) nothing escapes
+    spin = [e for e in rec["trace"] if e[0] == "stuck"]
+    if spin:
+        fails.append(("worker-spins", "the worker called %s %d times on a stream that had ended: on a real socket it spins for ever "
+                      "(the connection is never closed, nobody else is served)" % (spin[0][1], spin[0][2])))
+        return fails
     if rec["escaped"] is not None and not tls and not gthread_base:
         fails.append(("escape", "exception %s escaped handle()" % type(rec["escaped"]).__name__))
     # (2) the server closed the connection
